@@ -3,6 +3,7 @@ package main
 import (
 	"errors"
 	"fmt"
+	"math"
 	"math/big"
 	"strings"
 
@@ -158,6 +159,9 @@ func walkDoc(pj *simdjson.ParsedJson, o walkOpt) (docs []*ref.Node, err error) {
 			if typ != simdjson.TypeRoot {
 				return nil, fmt.Errorf("top level: expected root, got %v", typ)
 			}
+			if t2 := it.Type(); t2 != typ {
+				return nil, fmt.Errorf("top level: Advance() returned %v but Type() says %v", typ, t2)
+			}
 			var rdst *simdjson.Iter
 			if o.reuseDst {
 				rdst = &dstRoots[0]
@@ -229,6 +233,10 @@ func (w *walker) value(it *simdjson.Iter) (*ref.Node, error) {
 		if f, fl, ferr := it.FloatFlags(); ferr != nil || f != float64(v) || fl != 0 {
 			return nil, fmt.Errorf("FloatFlags() of the integer %d = %v, flags %x (%v)", v, f, uint64(fl), ferr)
 		}
+		// the unsigned view: the same number if it is not negative, an error otherwise
+		if u, uerr := it.Uint(); (v >= 0) != (uerr == nil) || (v >= 0 && u != uint64(v)) {
+			return nil, fmt.Errorf("Uint() of the integer %d = %d (%v)", v, u, uerr)
+		}
 		return ref.Int(v), nil
 	case simdjson.TypeUint:
 		v, err := it.Uint()
@@ -240,6 +248,10 @@ func (w *walker) value(it *simdjson.Iter) (*ref.Node, error) {
 		}
 		if f, fl, ferr := it.FloatFlags(); ferr != nil || f != float64(v) || fl != 0 {
 			return nil, fmt.Errorf("FloatFlags() of the unsigned integer %d = %v, flags %x (%v)", v, f, uint64(fl), ferr)
+		}
+		// the signed view: the same number if it fits int64, an error otherwise
+		if n, nerr := it.Int(); (v <= math.MaxInt64) != (nerr == nil) || (v <= math.MaxInt64 && n != int64(v)) {
+			return nil, fmt.Errorf("Int() of the unsigned integer %d = %d (%v)", v, n, nerr)
 		}
 		return ref.Uint(v), nil
 	case simdjson.TypeFloat:
